@@ -146,6 +146,11 @@ type machineRun struct {
 	Balances map[string]map[string]*big.Int
 	TxMeta   map[string]string
 	AccMeta  map[string]map[string]string
+	// StackLeft: values a run that returned an error at stage execute left on the VM stack
+	// (an error raised in the middle of a statement; a machine is single-use, so they die
+	// with it unless somebody recycles machines)
+	StackLeft int
+	FailP     int // instruction pointer when the run returned its error at stage execute
 
 	// package-level values this very run left damaged (set by globalGuard.run, which has
 	// restored them since)
@@ -190,6 +195,8 @@ func runMachine(prog *program.Program, vars map[string]string, st vm.Store) (res
 	res.Stage = "execute"
 	if err := m.Execute(); err != nil {
 		res.Err = err
+		res.StackLeft = len(m.Stack)
+		res.FailP = int(m.P)
 		return
 	}
 	res.Stage = "meta"
@@ -513,6 +520,14 @@ func (c *counterSet) Add(k string) {
 		c.m = map[string]int64{}
 	}
 	c.m[k]++
+	c.mu.Unlock()
+}
+func (c *counterSet) AddN(k string, n int64) {
+	c.mu.Lock()
+	if c.m == nil {
+		c.m = map[string]int64{}
+	}
+	c.m[k] += n
 	c.mu.Unlock()
 }
 func (c *counterSet) Map() map[string]int64 {
